@@ -326,6 +326,12 @@ def step_harness_one(spec, h, tier, seed, log, race=False, extra_env=None, optio
                                                    "detail": "the happens-before race detector reported conflicting accesses not ordered by synchronisation (" + "/".join(r["kinds"]) + ")"})
         res.setdefault("notes", []).append(f"{h['pkg']} {h['test']}: -race run, {nrep} race report(s), {len(seen)} distinct")
         res.setdefault("distribution", {})["race-run/" + h["pkg"] + "/" + re.sub(r"[^A-Za-z0-9]", "", h["test"])] = 1
+    if rc != 0 and not (race and h.get("race_only")) and not res.get("findings") and not (race and races):
+        # the harness process failed (a panic outside its recover points, a t.Fatal, a crash of the harness itself)
+        # although its result file shows no finding: the run proves nothing, and must not pass for a clean one
+        tail = "\n".join(l for l in out.splitlines() if not re.match(r"^\d{4}/\d\d/\d\d ", l))[-2500:]
+        res.setdefault("findings", []).append({"kind": "correspondence", "key": "harness-exited-nonzero", "case": f"{h['pkg']} {h['test']}",
+                                               "real": tail, "model": "", "detail": "go test failed without a recorded finding"})
     res["go_test_rc"] = rc if not (race and h.get("race_only")) else 0
     res["go_test_tail"] = "\n".join(out.splitlines()[-15:])
     res["wall_s"] = time.time() - t0
